@@ -566,7 +566,8 @@ Example c08_mcmc_example :
   Fresh NumR 0 (nth 0 (mcmc_states NumR 0 [p1; p2] d) (mkGM NumR p1 None)).
 Proof.
   cbv zeta. split; [reflexivity|]. split; [reflexivity|].
-  exact (proj2 (proj2 (c08_mcmc_states_own_parameters NumR 0 _ _ 0%nat (mkGP NumR [1] 1 0 1) (Nat.lt_0_succ 1)))).
+  exact (proj2 (proj2 (c08_mcmc_states_own_parameters NumR 0 [mkGP NumR [1] 1 0 1; mkGP NumR [2] 3 (/ 2) (/ 4)]
+                        (mkGD NumR [[0]; [1]] [1; 2]) 0%nat (mkGP NumR [1] 1 0 1) (Nat.lt_0_succ 1)))).
 Qed.
 
 (* ---- fantasy matrices through the state: the factor does not depend on the targets and column j of the
